@@ -599,7 +599,24 @@ def empty_404_cluster(cid, agent, n=40):
     return c
 
 
+def gen_tls_cluster(rng, cid):
+    """TLS on every proxy port, one certificate per node valid for that node's address only; the entry node forwards to several
+    DIFFERENT peers one after the other (seeded change C01-7: the first peer's name stuck in the shared client configuration)"""
+    nn = rng.randint(3, 4)
+    eps = ["e", "f", "e1"][: nn - 1]
+    nodes = [{"id": "n%d" % i, "upstreams": [], "view": []} for i in range(nn)]
+    for k, e in enumerate(eps):
+        nodes[k + 1]["upstreams"].append(up("u%d" % k, e))
+    truth_views(nodes)
+    reqs = []
+    for _ in range(rng.randint(6, 10)):
+        reqs.append(hdr_req(rng.choice([0, 0, rng.randrange(nn)]), rng.choice(eps), rng))
+    return {"id": cid, "timeout_ms": NORMAL_TIMEOUT_MS, "kind": "consistent", "tls": True, "nodes": nodes, "requests": reqs}
+
+
 def gen_cluster(rng, cid, profile):
+    if rng.random() < profile.get("p_tls", 0.0):
+        return gen_tls_cluster(rng, cid)
     if rng.random() < profile.get("p_dynamic", 0.0):
         return gen_dynamic_cluster(rng, cid)
     kind = rng.choices(list(profile["kinds"].keys()), list(profile["kinds"].values()))[0]
@@ -638,8 +655,8 @@ def gen_access_log(rng):
 
 
 PROFILES = {
-    "C01": {"kinds": {"consistent": 45, "adversarial": 45, "failure": 10}, "p_tcp": 0.25, "p_rich": 0.15, "p_dynamic": 0.15},
-    "C06": {"kinds": {"adversarial": 70, "consistent": 20, "failure": 10}, "p_tcp": 0.2, "p_rich": 0.1, "p_dynamic": 0.25},
+    "C01": {"kinds": {"consistent": 45, "adversarial": 45, "failure": 10}, "p_tcp": 0.25, "p_rich": 0.15, "p_dynamic": 0.15, "p_tls": 0.06},
+    "C06": {"kinds": {"adversarial": 70, "consistent": 20, "failure": 10}, "p_tcp": 0.2, "p_rich": 0.1, "p_dynamic": 0.25, "p_tls": 0.05},
     "C08": {"kinds": {"consistent": 45, "failure": 20, "timeout": 25, "adversarial": 10}, "p_tcp": 0.03, "p_rich": 0.85, "p_agent": 0.25, "p_dynamic": 0.08,
             "min_reqs": 5, "max_reqs": 8},
 }
@@ -1296,6 +1313,7 @@ def run_property(ctx, pid, nclusters_quick, nhosts):
     nclusters = nclusters_quick if tier == "quick" else nclusters_quick * 15
     profile = PROFILES[pid]
     clusters = corpus() + [gen_dynamic_cluster(random.Random(7 + k), "corpus-dyn-" + sc, sc) for k, sc in enumerate(["reconnect", "twins", "goaway", "flaky"])] \
+        + [gen_tls_cluster(random.Random(77), "corpus-tls")] \
         + ([agent_burst_cluster("corpus-agent-burst"), empty_404_cluster("corpus-empty-404", False), empty_404_cluster("corpus-empty-404-b", False),
             empty_404_cluster("corpus-empty-404-agent", True)] if pid == "C08" else []) \
         + [gen_cluster(rng, "g%d" % i, profile) for i in range(nclusters)]
